@@ -168,7 +168,7 @@ CHECKS = {
             'preempted after every possible number of line-steps inside clastic / generated code while B runs to completion; '
             'Hypothesis draws multi-preemption schedules for 2-4 threads; 8 free-running threads run with a 1 microsecond switch '
             'interval. Every response (status, body echoing path / URL parameters / middleware-provided token / request identity, '
-            'Location, Allow) must equal the one obtained alone; request identifiers must be pairwise distinct.',
+            'Location, Allow) must equal the one obtained alone; request identifiers must be pairwise distinct. A burst part parks a request for a familiar URL at every step while 70-520 requests for never-seen URLs are served.',
             'serialised threads at line granularity: intra-line races only by the probabilistic stress part; a stalled schedule is inconclusive, not a violation',
             'DESIGN.md §4 C12'),
 }
